@@ -374,6 +374,8 @@ func (x *storeExec) afterMutation(e engine.Event, nd *snode, sig string) {
 			st.ProbeIf(l.CompactionTrigger != old.CompactionTrigger, "compaction-ran")
 			st.ProbeIf(l.CompactionTrigger != old.CompactionTrigger && l.BufferLen < old.BufferLen, "compaction-moved-entries")
 			st.ProbeIf(l.BufferLen > 0 && l.AllocatedPages > 0, "buffer-and-pages-both-used")
+			st.ProbeIf(e.Ev == "deliver" && l.CompactionTrigger != old.CompactionTrigger, "decode-batch-triggered-compaction")
+			st.ProbeIf(l.BufferLen > 64, "buffer-longer-than-64")
 			st.ProbeIf(old.AllocatedPages > 0 && l.PagesUnused && !old.PagesUnused, "pages-retained-by-clear")
 		}
 		nd.lay = l
